@@ -354,7 +354,7 @@ pub fn net_fault_kinds() -> Vec<FaultKind> {
 			value: val.clone(),
 		});
 	}
-	for what in ["garbage", "empty", "other_key", "truncated", "not_utf8"].iter() {
+	for what in ["garbage", "empty", "other_key", "truncated", "not_utf8", "issuer_first", "leaf_then_truncated"].iter() {
 		v.push(FaultKind::CertBody {
 			what: what.to_string(),
 		});
